@@ -146,6 +146,10 @@ func (e *FnEnc) call(v ssa.Value, c *ssa.CallCommon, in ssa.Instruction) {
 			return
 		}
 		if inModule(f) && f.Blocks != nil && !e.W.NoHeapEffect(name) {
+			if e.inlinable(f) {
+				e.inlineCall(v, f, args)
+				return
+			}
 			// a module function without a contract: its inferred write set instead of "everything"
 			e.havocEffects(e.W.EffectsOf(f), name, args...)
 			if v != nil {
@@ -663,18 +667,36 @@ func (e *FnEnc) sortModel(name string, c *ssa.CallCommon, args []Val, in ssa.Ins
 			}
 		}
 	}
-	if lessExpr == nil {
-		e.abstract(name + ": comparator has no contract of the form 'ensures result == E'")
-		return true
+	var free []Val
+	for _, b := range mk.Bindings {
+		free = append(free, e.val(b))
 	}
-	e.calleeUsed[con.Pkg+"::"+con.Name] = true
+	derived := false
+	if lessExpr == nil {
+		// no contract on the comparator: read its body as a term (loop-free literals only)
+		if _, ok := e.pureEval(fn, e.cur, []Val{{T: "a!s", Ty: tInt}, {T: "b!s", Ty: tInt}}, free); !ok {
+			e.abstract(name + ": comparator has no contract of the form 'ensures result == E' and its body is not a closed term")
+			return true
+		}
+		derived = true
+		e.note("comparator of " + name + " read from its body (no contract on the literal)")
+	} else {
+		e.calleeUsed[con.Pkg+"::"+con.Name] = true
+	}
 	less := func(st State, a, b string) (string, error) {
+		if derived {
+			t, ok := e.pureEval(fn, st, []Val{{T: a, Ty: tInt}, {T: b, Ty: tInt}}, free)
+			if !ok {
+				return "", fmt.Errorf("comparator body is not a closed term")
+			}
+			return t, nil
+		}
 		env := &Env{e: e, st: st, old: st, vars: map[string]Val{}, guard: e.curGuard}
 		if fn.Parent() != nil && fn.Parent().Pkg != nil {
 			env.pkg = fn.Parent().Pkg.Pkg
 		}
 		for k, fv := range fn.FreeVars {
-			env.vars[fv.Name()] = e.val(mk.Bindings[k])
+			env.vars[fv.Name()] = free[k]
 		}
 		env.vars[fn.Params[0].Name()] = Val{T: a, Ty: tInt}
 		env.vars[fn.Params[1].Name()] = Val{T: b, Ty: tInt}
